@@ -5,7 +5,7 @@ public API calls (operations) and serialisation ("raw if untouched, otherwise re
 -/
 import LolHtml.Model.Mutations
 
-namespace LolHtml.Model
+namespace LolHtml.EditModel
 
 /-! ### Attributes (tokens/attributes.rs) -/
 
@@ -309,4 +309,4 @@ def Token.intoBytes (enc : Enc) : Token → Bytes
   | .comment t => t.intoBytes enc
   | .doctype t => t.intoBytes
 
-end LolHtml.Model
+end LolHtml.EditModel
